@@ -124,6 +124,7 @@ class TypeState:
         self.calls = []        # (caller Fn, callee Fn, {callee entity key: set of sides}, where)
         self.contexts = 0
         self.stack = []
+        self.consts_stack = []
 
     # ------------------------------------------------------------------ reporting
     def viol(self, rule, key, where, what):
@@ -151,20 +152,58 @@ class TypeState:
                 self.viol("typestate-anchor", "best-side|" + q.fn.short(), q.loc(), "cannot resolve the side of best_order_idx in " + render(key))
                 return top_I()
         if mode == "loader":
-            return fresh_unfiled()
+            base = fresh_unfiled()
+            # an iterator `filter` on the stored entries restricts which entries the loop sees; the
+            # entries it skips must already satisfy I (i.e. must not be Active, nothing is filed yet)
+            for x in walk(key):
+                if x[0] == "call" and x[4] == "next":
+                    for c in q.calls("next"):
+                        if c.result == x:
+                            r = q.iter_chain_full(c)
+                            if r is None:
+                                continue
+                            for (name, extra) in r[0]:
+                                if name != "filter" or not extra or extra[0][0] != "agg":
+                                    continue
+                                keep = self.filter_statuses(extra[0])
+                                where = c.loc()
+                                if keep is None:
+                                    self.viol("exit-invariant", "%s|filter-opaque" % q.fn.short(), where,
+                                              "the loader skips stored entries by a predicate that is not a test of their status: skipped Active orders would be missing from the rebuilt index")
+                                    continue
+                                if "Active" not in keep:
+                                    self.viol("exit-invariant", "%s|filter-skips-active" % q.fn.short(), where, "the loader's filter skips Active orders: they would be missing from the rebuilt index")
+                                base = frozenset(t for t in base if t[0] in keep)
+            return base
         return top_I()
 
+    def filter_statuses(self, clo):
+        """statuses accepted by a filter closure `|e| e.order.status ==/!= Status::X` (None if not of that form)"""
+        from .beta import closure_fn
+        f = closure_fn(self.w, clo)
+        if f is None:
+            return None
+        r = self.w.q(f).ret()
+        if r[0] == "call" and r[4] in ("eq", "ne") and len(r[2]) == 2:
+            a, b = r[2]
+            for x, y in ((a, b), (b, a)):
+                v = variant_name(y) if y[0] == "agg" else None
+                if v in STATUSES and x[0] == "field" and x[2] == "status":
+                    return {v} if r[4] == "eq" else set(STATUSES) - {v}
+        return None
+
     # ------------------------------------------------------------------ main analysis
-    def analyse(self, fn, entry, mode="api"):
+    def analyse(self, fn, entry, mode="api", consts=()):
         """entry: dict key -> frozenset(tuples) for parameter-rooted entities.
         returns dict(exit=dict key->frozenset, ret=expr)"""
-        ck = (fn.path, mode, tuple(sorted((repr(k), tuple(sorted(v, key=repr))) for k, v in entry.items())))
+        ck = (fn.path, mode, tuple(sorted((repr(k), tuple(sorted(v, key=repr))) for k, v in entry.items())), tuple(consts))
         if ck in self.memo:
             return self.memo[ck]
         if fn.path in self.stack:
             self.viol("typestate-anchor", "recursion|" + fn.short(), "-", "recursion through " + fn.short())
             return {"exit": dict(entry), "ret": ("unk", "rec")}
         self.stack.append(fn.path)
+        self.consts_stack.append(dict(consts))
         self.contexts += 1
         q = self.m.q(fn)
         body = fn.body
@@ -226,6 +265,7 @@ class TypeState:
                                       render(k), fn.short(), tpl[0], tpl[1], render(tpl[3]) if tpl[3] else "none"))
         res = {"exit": {k: v for k, v in OUT_exit.items()}, "ret": q.ret()}
         self.stack.pop()
+        self.consts_stack.pop()
         self.memo[ck] = res
         return res
 
@@ -335,6 +375,8 @@ class TypeState:
         if f == "status" and owner == "Order":
             k = a[1]
             new = variant_name(w.val)
+            if new is None and w.val[0] == "param" and self.consts_stack and w.val[1] in self.consts_stack[-1]:
+                new = self.consts_stack[-1][w.val[1]]   # status passed as a constant argument by this calling context
             cur = self.get(q, st, k, mode)
             pre = frozenset(t[0] for t in cur)
             if new not in STATUSES:
@@ -556,7 +598,8 @@ class TypeState:
         if not entry and not self.touches_entities(tgt):
             return
         self.calls.append((q.fn, tgt, {render(ck): frozenset(t[2] for t in v) for ck, v in entry.items()}, where))
-        res = self.analyse(tgt, entry, mode)
+        consts = tuple(sorted((j + 1, variant_name(a)) for j, a in enumerate(c.args) if a[0] == "agg" and variant_name(a) in STATUSES))
+        res = self.analyse(tgt, entry, mode, consts)
         ret_expr = res["ret"]
         call_res = c.result
         for (k, ck) in touched:
